@@ -258,9 +258,11 @@ type codecEntry struct {
 
 func (e *Exec) codecMarshal(fr *frame, codec string, v Iface) Value {
 	// fork: error or success with a fresh payload of 0..2 bytes
-	ok := e.freshVar(codec+".marshal.ok", 0)
-	if !e.branch(ok) {
-		return Tuple{Slice{}, e.newErrorString(e.strConst(codec + ": marshal error (stub)"))}
+	if !e.codecNoFaults {
+		ok := e.freshVar(codec+".marshal.ok", 0)
+		if !e.branch(ok) {
+			return Tuple{Slice{}, e.newErrorString(e.strConst(codec + ": marshal error (stub)"))}
+		}
 	}
 	lv := e.freshVar(codec+".payload.len", 64)
 	n := e.forkRange(lv, 1, 2) // a codec never produces an empty document
